@@ -679,10 +679,13 @@ func checkC09(r *Run) {
 	// parameter names that only resemble the recognised ones (longer, shorter, with a suffix): generic parameters,
 	// alone, before and after the real tag / expires / q / lr
 	look := []naParam{{"expiresx", "77", true}, {"Expires-Refresh", "86400", true}, {"expires_after", "\"1\"", true}, {"expire", "5", true}, {"xexpires", "6", true},
-		{"tagg", "zz", true}, {"tags", "", false}, {"ta", "t", true}, {"qq", "0.9", true}, {"q1", "1", true}, {"lrr", "", false}, {"lr1", "x", true}, {"l", "", false}}
+		{"tagg", "zz", true}, {"tags", "", false}, {"ta", "t", true}, {"qq", "0.9", true}, {"q1", "1", true}, {"lrr", "", false}, {"lr1", "x", true}, {"l", "", false},
+		{"pub-gruu-id", "77", true}, {"max-contacts", "4000", true}, {"x-session-id", "abc", true}, {"reg-id", "0.7", true}, {"sip.instance", "\"<urn:uuid:1>\"", true}}
 	parallelFor(r, len(look), func(c *enumCtx, li int) {
 		lp := look[li]
-		for _, pl := range [][]naParam{{lp}, {lp, {"expires", "30", true}, {"tag", "T", true}}, {{"q", "0.5", true}, {"expires", "30", true}, lp}, {{"tag", "T", true}, lp, {"lr", "", false}}, {lp, look[(li+5)%len(look)]}} {
+		for _, pl := range [][]naParam{{lp}, {lp, {"expires", "30", true}, {"tag", "T", true}}, {{"q", "0.5", true}, {"expires", "30", true}, lp}, {{"tag", "T", true}, lp, {"lr", "", false}}, {lp, look[(li+5)%len(look)]},
+			// value-less parameters that carry the recognised names, after a parameter with a value: nothing is reported for them
+			{lp, {"expires", "", false}}, {lp, {"tag", "", false}}, {lp, {"q", "", false}}, {lp, {"x", "", false}, {"Expires", "", false}, {"TAG", "", false}}, {{"expires", "", false}, lp, {"q", "", false}, {"tag", "T", true}}} {
 			for si, sh := range shapes {
 				if si%3 != li%3 {
 					continue
